@@ -159,6 +159,9 @@ APPEND = {
          ' T-tie: gen_bin_gti_eq_overlap, gen_filter_exact, gen_complement_tiles, gen_gti_list_spec, gen_octi_list_spec, gen_gti_list_duration, gen_calculate_epochs_eq_model (even ticks), '
          'gen_bisect_odd_eq_model (sorted marks); the trajectory layer on a stub trajectory incl. windows without any transition; threshold-directed queries.',
          ' The orbit propagation (SGP4, JPL ephemeris) is outside the model: the SAA / occultation status functions are parameters.'),
+ 'C19': ('; the persistence, copy and arithmetic methods of xHistogramBase are regenerated from the source (object / n-d array translator) and are the model by rfl',
+         ' T-tie: gen_save_eq_model, gen_from_file_eq_model, gen_copy_eq_model, gen_set_content_eq_model, gen_add/sub/mul_eq_model, gen_hist_load_save, gen_hist_cycles_stable, gen_hist_copy_eq; '
+         'histograms whose content equals their entries while the errors differ, slices of 2-d histograms.', ''),
  'C20': ('; harmonic_addition (the double loop) is regenerated from the source and proved equal to the model',
          ' T-tie: gen_harmonic_addition_eq_model, gen_harmonic_addition_is_stokes_sum, gen_harmonic_perm_invariant; power-law ranges starting at zero energy (oracle only).', ''),
 }
